@@ -115,7 +115,9 @@ def sweep_cases(tier):
             seen.add(k)
             for fw in gen.FRAMEWORKS:
                 for uni in (True, False):
-                    for shape in ("scalar", "object", "optional-object-list"):
+                    if not uni and (gen.nfkc_unstable(k) or (tier == "quick" and k.isascii())):
+                        continue
+                    for shape in (("scalar", "object") if tier == "quick" else ("scalar", "object", "optional-object-list")):
                         if shape == "scalar":
                             samples = [{k: 1, "zz": "1"}]
                         elif shape == "object":
@@ -132,6 +134,6 @@ def valid(case):
 
 
 def phases(tier):
-    n = {"quick": 16 * 900, "thorough": 16 * 20000}[tier]
+    n = {"quick": 16 * 1500, "thorough": 16 * 20000}[tier]
     return [dict(name="sweep", kind="enumerate", cases=sweep_cases, check=check),
             dict(name="main", kind="hypothesis", strategy=cases(tier), check=check, examples=n)]
